@@ -237,6 +237,10 @@ def run_case(case):
         fields.insert(0, ('kn', 'number'))
         typ = dict(fields)
         keys = ['kn']
+        if boot.rng(case['seed'], 'C20', 'mixedkey', case['idx']).random() < 0.5:
+            # ... also as one part of a composite key next to a string part
+            keymode = 'explicit_string_and_number'
+            keys = ['k2', 'kn']
     use_pk = keymode.startswith('pk')
     # Table Schema also allows primaryKey to be a single field name (a string)
     pk_as_string = keymode == 'pk_single' and rng.random() < 0.4
@@ -252,9 +256,14 @@ def run_case(case):
            'fields': fields, 'dumps': [], 'primaryKey_as_string': pk_as_string, 'constraints': constrained}
     cov['config']['%s/batch%d/bloom%s' % (keymode, batch, bloom)] = 1
     model = []          # list of row dicts
+    # a later step that stops reading each resource after two rows: the table still reflects the whole stream
+    early = boot.rng(case['seed'], 'C20', 'early', case['idx']).random() < 0.15
     two_tables = rng.random() < 0.4      # a second resource dumped to its own table by the same step + a bystander
     model2 = []
     cfg['two_tables'] = two_tables
+    cfg['later_step_stops_reading_early'] = early
+    if early:
+        cov['config']['later_step_stops_reading_early'] = 1
     nontrivial = False
     modes = []
 
@@ -282,7 +291,7 @@ def run_case(case):
         for i in range(nrows):
             for _ in range(20):
                 r = {'k1': rng.randint(0, 12), 'k2': rng.choice(['a', 'b', 'é'])}
-                if keymode == 'explicit_number':
+                if 'kn' in typ:
                     r['kn'] = rng.choice([decimal.Decimal('1.5'), decimal.Decimal('2'), decimal.Decimal('2.0'),
                                           decimal.Decimal('2.00'), decimal.Decimal('-0.25'), 3, 7.5])
                 if mode == 'update' and existing and rng.random() < 0.4:
@@ -385,7 +394,20 @@ def run_case(case):
         if phase == 'plan':
             built[di] = step
             continue
-        out = lab.run(steps + [step], validate=False)
+        after_ = []
+        if early:
+            import itertools
+
+            def first_two(rows):
+                return itertools.islice(rows, 2)
+            after_ = [first_two]
+        out = lab.run(steps + [step] + after_, validate=False)
+        if early and out.ok:
+            # downstream verdicts apply to the rows that were asked for
+            rows_all, rows = rows, rows[:2]
+            exp_flags = exp_flags[:2]
+            if two_tables:
+                rows2, bystander = rows2[:2], bystander[:2]
         # engine cleanup (file handles)
         try:
             step.engine.dispose()
@@ -451,6 +473,8 @@ def run_case(case):
             break
         finally:
             con.close()
+        if early and out.ok:
+            rows = rows_all
         counters['tables_compared'] += 1
         if sorted(cols) != sorted(typ):
             add('columns', 'dump %d: table columns %r expected %r' % (di, cols, sorted(typ)), 'columns')
